@@ -43,7 +43,7 @@ theorem inRange_getElem : ∀ (e i : List Nat), InRange e i → ∀ k (h1 : k < 
 
 theorem not_inRange_of_zero : ∀ (e i : List Nat), 0 ∈ e → ¬ InRange e i
   | [], _, h => by simp at h
-  | e :: es, [], _ => by simp [InRange]
+  | _ :: _, [], _ => by simp [InRange]
   | e :: es, i :: is, h => by
       intro hr
       simp only [List.mem_cons] at h
